@@ -175,3 +175,60 @@ Proof.
   subst nm'. destruct (apply_root bs nm ents (OExpand shape) _ _ _ t' ltac:(intros; discriminate) Hs Ha) as [Ht Hr].
   split; assumption.
 Qed.
+
+(* ---- flatten: the dims before and after the flattened range keep their names, the merged dim is unnamed *)
+Definition flatten_prov (n i j : nat) : list (option nat) :=
+  firstn i (id_prov n) ++ None :: skipn (S j) (id_prov n).
+
+Lemma Forall_firstn {A} (P : A -> Prop) i l : Forall P l -> Forall P (firstn i l).
+Proof. intros H. rewrite Forall_forall in *. intros y Hy. apply H. eapply In_firstn. exact Hy. Qed.
+Lemma Forall_skipn {A} (P : A -> Prop) i l : Forall P l -> Forall P (skipn i l).
+Proof. intros H. rewrite Forall_forall in *. intros y Hy. apply H. eapply In_skipn. exact Hy. Qed.
+
+Theorem names_flatten bs nm ents a b i j t' :
+  bs <> [] -> wrap_dim a (List.length bs) = Ok i -> wrap_dim b (List.length bs) = Ok j -> (i < j)%nat ->
+  names_wf nm bs -> has_names nm = true ->
+  apply (Node bs nm ents) (OFlatten a b) = Done t' ->
+  exists nl', root_names t' = Some nl' /\
+              travels (flatten_prov (List.length bs) i j) bs (top_shape t') (names_list nm (List.length bs)) nl'.
+Proof.
+  intros Hne Hi Hj Hij Hw Hh Ha.
+  pose proof (wrap_dim_ok _ _ _ Hi) as [Hi1 Hi2]. pose proof (wrap_dim_ok _ _ _ Hj) as [Hj1 Hj2].
+  assert (Hstep : node_step (OFlatten a b) bs nm =
+            Done (SStep (flat bs i j)
+                        (Some (insert_nth i None (firstn i (names_list nm (List.length bs)) ++ skipn (S j) (names_list nm (List.length bs)))))
+                        (fun _ => OFlatten (Z.of_nat i) (Z.of_nat j)))).
+  { cbn [node_step].
+    replace (if a <? 0 then Z.of_nat (List.length bs) + a else a) with (Z.of_nat i) by (destruct (a <? 0); lia).
+    replace (if b <? 0 then Z.of_nat (List.length bs) + b else b) with (Z.of_nat j) by (destruct (b <? 0); lia).
+    destruct (Z.of_nat j <? 0) eqn:E2; [lia|]. rewrite andb_false_r. cbn [andb].
+    destruct (Z.of_nat j <=? Z.of_nat i) eqn:E3; [lia|].
+    replace (Z.of_nat j + 1) with (Z.of_nat (S j)) by lia.
+    rewrite py_slice_in, py_from_in, py_upto_in by lia.
+    assert (Hbs : (if 0 <? Z.of_nat i then firstn i bs ++ prodZ (firstn (S j - i) (skipn i bs)) :: skipn (S j) bs
+                   else prodZ (firstn (S j - i) (skipn i bs)) :: skipn (S j) bs) = flat bs i j).
+    { unfold flat. destruct (0 <? Z.of_nat i) eqn:E4; [reflexivity|]. assert (i = 0)%nat by lia. subst. reflexivity. }
+    rewrite Hbs, Hh. destruct nm as [l|]; [|discriminate]. cbn [names_list] in *. cbn in Hw.
+    replace (seq 0 (List.length bs)) with (seq 0 (List.length l)) by (rewrite Hw; reflexivity).
+    rewrite filter_outside by lia. rewrite Nat.sub_0_r.
+    rewrite py_insert_in by (rewrite app_length, firstn_length; lia). reflexivity. }
+  destruct (apply_root bs nm ents (OFlatten a b) _ _ _ t' ltac:(intros; discriminate) Hstep Ha) as [Ht Hr].
+  eexists. split; [exact Hr|]. rewrite Ht. destruct nm as [l|]; [|discriminate]. cbn [names_list] in *. cbn in Hw.
+  assert (Hidl : List.length (id_prov (List.length bs)) = List.length bs) by (unfold id_prov; rewrite map_length, seq_length; reflexivity).
+  split.
+  - unfold flatten_prov. rewrite flat_length by lia. rewrite app_length. cbn [List.length]. rewrite firstn_length, skipn_length, Hidl. lia.
+  - split.
+    + unfold flatten_prov. rewrite via_app. cbn [via map]. fold (via (skipn (S j) (id_prov (List.length bs))) l None).
+      fold (via (firstn i (id_prov (List.length bs))) l None). rewrite via_firstn, via_skipn. unfold id_prov. rewrite <- Hw, via_id.
+      unfold insert_nth. rewrite firstn_app_l by (rewrite firstn_length; lia). rewrite firstn_firstn, Nat.min_id.
+      rewrite skipn_app_l by (rewrite firstn_length; lia).
+      replace (skipn i (firstn i l)) with (@nil (option string)) by (symmetry; apply skipn_all2; rewrite firstn_length; lia).
+      reflexivity.
+    + intros k j0 Hk.
+      replace (flat bs i j) with (via (flatten_prov (List.length bs) i j) bs (prodZ (firstn (S j - i) (skipn i bs)))).
+      * apply sizes_via; [|exact Hk]. unfold flatten_prov. apply Forall_app. split; [apply Forall_firstn, id_prov_ok|].
+        constructor; [exact I|apply Forall_skipn, id_prov_ok].
+      * unfold flatten_prov, flat. rewrite via_app. cbn [via map]. fold (via (skipn (S j) (id_prov (List.length bs))) bs (prodZ (firstn (S j - i) (skipn i bs)))).
+        fold (via (firstn i (id_prov (List.length bs))) bs (prodZ (firstn (S j - i) (skipn i bs)))).
+        rewrite via_firstn, via_skipn. unfold id_prov. rewrite via_id. reflexivity.
+Qed.
